@@ -6,6 +6,9 @@
 #include "../shim/rtr_shim.h"
 #include <rapidcheck.h>
 #include <algorithm>
+extern "C" {
+#include "rtrlib/rtr_mgr.h"
+}
 
 using sm::Key;
 
@@ -208,6 +211,19 @@ static vf::Result run_case(const Case &c, vf::Stats *st, RunInfo *io = nullptr)
 		free(r);
 		auto want = m.get_all(asn, s);
 		std::sort(got.begin(), got.end());
+		{ // the manager's accessor must give the same answer
+			struct rtr_mgr_config cfg;
+			memset(&cfg, 0, sizeof cfg);
+			cfg.spki_table = t;
+			struct spki_record *r2 = nullptr;
+			unsigned int n2 = 0;
+			int rc2 = rtr_mgr_get_spki(&cfg, asn, s.data(), &r2, &n2);
+			std::vector<Key> got2;
+			for (unsigned i = 0; i < n2; i++) got2.push_back(from_lib(&r2[i]));
+			free(r2);
+			std::sort(got2.begin(), got2.end());
+			if (rc2 != rc || got2 != got) FAIL("C10:mgr_get_spki", "rtr_mgr_get_spki disagrees with spki_table_get_all after " + after);
+		}
 		if (rc != 0) FAIL("C10:get_all-rc", "spki_table_get_all returned " + std::to_string(rc));
 		else if (got != want) FAIL("C10:get_all", "get_all(AS" + std::to_string(asn) + ", ski#" + std::to_string(ski) + ") after " + after + " differs from the model:" + diff(got, want));
 	};
